@@ -64,6 +64,30 @@ fn len_class(n: usize) -> &'static str {
 /// that query causes (every shorter prefix; the query followed by a separator, then backspace; one letter too
 /// many, then backspace; only its first letters). Their results are not judged here; the judged query must find
 /// the record whatever the store answered before.
+/// Positions `lo..=hi` to try in a word: all of them up to 320 letters, a sample beyond (both ends, the middle,
+/// around 1024, a few random ones) - a search against a word of a thousand letters costs a million matrix cells.
+fn positions(cx: &mut Cx, lo: usize, hi: usize) -> Vec<usize> {
+    if hi < lo {
+        return vec![];
+    }
+    if hi - lo <= 320 {
+        return (lo..=hi).collect();
+    }
+    let mut v = vec![lo, lo + 1, lo + 2, lo + (hi - lo) / 5, (lo + hi) / 2, hi - 2, hi - 1, hi];
+    for p in [1023usize, 1024, 1025].iter() {
+        if *p >= lo && *p <= hi {
+            v.push(*p);
+        }
+    }
+    for _ in 0..2 {
+        v.push(cx.rng.range(lo, hi));
+    }
+    v.sort();
+    v.dedup();
+    cx.count("words of more than 320 letters (positions sampled)");
+    v
+}
+
 fn lead_in(cx: &mut Cx, st: &St, q: &str) {
     if !cx.rng.chance(1, 8) {
         return;
@@ -118,7 +142,7 @@ impl Finds {
                     if !done_words.insert(s(&cs)) {
                         continue;
                     }
-                    for plen in 1..=cs.len() {
+                    for plen in positions(cx, 1, cs.len()) {
                         if !cs[plen - 1].is_alphanumeric() {
                             continue;
                         }
@@ -175,7 +199,7 @@ impl Finds {
                     // language (one that its tables map to a single letter or leave alone): such a query is not plain ASCII
                     // even when the title is
                     let accented: Vec<char> = oracle::accents(lang).iter().map(|a| a.composed).filter(|c| c.is_lowercase()).chain(if lang == "xr" { vec!['é'] } else { vec![] }).collect();
-                    for pos in 0..=cs.len() {
+                    for pos in positions(cx, 0, cs.len()) {
                         for kind in 0..4 {
                             let alpha: Vec<char> = if !accented.is_empty() && kind < 2 && cx.rng.chance(1, 8) { accented.clone() } else { alpha.clone() };
                             let mut e = cs.clone();
@@ -296,7 +320,7 @@ impl Finds {
                 for wi in 0..tok.words.len() {
                     let cs = word_chars(&tok, wi).to_vec();
                     if cs.len() >= 3 && done_words.insert(s(&cs)) {
-                        for sp in 1..cs.len() {
+                        for sp in positions(cx, 1, cs.len() - 1) {
                             // the two parts, usually as typed so far; sometimes followed by a separator or by
                             // another title word (then the second part is a finished word)
                             let mut q = format!("{} {}", s(&cs[..sp]), s(&cs[sp..]));
@@ -493,10 +517,10 @@ impl Prop for Finds {
     }
     fn floors(&self) -> Vec<(&'static str, u64, u64)> {
         match self.0 {
-            Which::Prefix => vec![("prefix len 1", 500, 5000), ("prefix len 2", 500, 5000), ("prefix len >3", 2000, 20000), ("word with stem < len", 200, 2000), ("function word", 20, 200), ("word > 20 letters", 20, 200), ("stores cleared and refilled before the judged searches", 100, 1000), ("judged queries preceded by the searches of a person typing them", 5000, 50000), ("titles with more than 20 words", 100, 1000)],
-            Which::Typo => vec![("substitution at first", 50, 500), ("insertion at first", 50, 500), ("deletion at first", 50, 500), ("transposition at first", 50, 500), ("transposition at last", 50, 500), ("len 5", 200, 2000), ("len >20", 100, 1000), ("stores cleared and refilled before the judged searches", 100, 1000), ("typo letter that is an accented letter of the language", 3000, 30000), ("judged queries preceded by the searches of a person typing them", 5000, 50000), ("titles with more than 20 words", 30, 300), ("exhaustive-letter edits", 30000, 250000), ("exhaustive-letter words that are function words", 150, 150)],
-            Which::Whole => vec![("whole title", 1000, 10000), ("first last", 300, 3000), ("stores cleared and refilled before the judged searches", 100, 1000), ("judged queries preceded by the searches of a person typing them", 5000, 50000), ("last first", 300, 3000), ("title with function word", 50, 500), ("titles with more than 20 words", 200, 2000), ("catalogues searched while small, then grown and given limit = N", 6, 60)],
-            Which::SplitJoin => vec![("split", 2000, 20000), ("split after first letter", 200, 2000), ("stores cleared and refilled before the judged searches", 100, 1000), ("judged queries preceded by the searches of a person typing them", 5000, 50000), ("join", 100, 1000), ("join with 1-letter first word", 3, 30), ("titles with more than 20 words", 100, 1000), ("split followed by a separator", 20000, 200000), ("split next to symbols inside the word", 300, 3000)],
+            Which::Prefix => vec![("prefix len 1", 500, 5000), ("prefix len 2", 500, 5000), ("prefix len >3", 2000, 20000), ("word with stem < len", 200, 2000), ("function word", 20, 200), ("word > 20 letters", 20, 200), ("stores with a word (or word pair) of more than 1024 letters", 2, 20), ("stores cleared and refilled before the judged searches", 100, 1000), ("judged queries preceded by the searches of a person typing them", 5000, 50000), ("titles with more than 20 words", 100, 1000)],
+            Which::Typo => vec![("substitution at first", 50, 500), ("insertion at first", 50, 500), ("deletion at first", 50, 500), ("transposition at first", 50, 500), ("transposition at last", 50, 500), ("len 5", 200, 2000), ("len >20", 100, 1000), ("stores with a word (or word pair) of more than 1024 letters", 2, 20), ("stores cleared and refilled before the judged searches", 100, 1000), ("typo letter that is an accented letter of the language", 3000, 30000), ("judged queries preceded by the searches of a person typing them", 5000, 50000), ("titles with more than 20 words", 30, 300), ("exhaustive-letter edits", 30000, 250000), ("exhaustive-letter words that are function words", 150, 150)],
+            Which::Whole => vec![("whole title", 1000, 10000), ("first last", 300, 3000), ("stores with a word (or word pair) of more than 1024 letters", 2, 20), ("stores cleared and refilled before the judged searches", 100, 1000), ("judged queries preceded by the searches of a person typing them", 5000, 50000), ("last first", 300, 3000), ("title with function word", 50, 500), ("titles with more than 20 words", 200, 2000), ("catalogues searched while small, then grown and given limit = N", 6, 60)],
+            Which::SplitJoin => vec![("split", 2000, 20000), ("split after first letter", 200, 2000), ("stores with a word (or word pair) of more than 1024 letters", 2, 20), ("stores cleared and refilled before the judged searches", 100, 1000), ("judged queries preceded by the searches of a person typing them", 5000, 50000), ("join", 100, 1000), ("join with 1-letter first word", 3, 30), ("titles with more than 20 words", 100, 1000), ("split followed by a separator", 20000, 200000), ("split next to symbols inside the word", 300, 3000)],
         }
     }
     fn ratios(&self) -> Vec<(&'static str, &'static str, f64, f64)> {
@@ -522,6 +546,18 @@ impl Prop for Finds {
                         let k = cx.rng.range(1, t.len().min(6));
                         recs.push((100 + recs.len() * 3, s(&t[..k]), cx.rng.below(4)));
                     }
+                }
+                if cx.tier != Tier::Miri && cx.rng.chance(1, 250) {
+                    // a title with a word of more than 1024 letters, or two words whose run-together spelling passes 1024
+                    let alpha = gen::lower_alphabet(lang);
+                    let t = if cx.rng.chance(1, 2) {
+                        format!("{} {}", gen::any_word(&mut cx.rng, lang), gen::rand_word(&mut cx.rng, &alpha, 1025, 1300))
+                    } else {
+                        format!("{} {}", gen::rand_word(&mut cx.rng, &alpha, 500, 640), gen::rand_word(&mut cx.rng, &alpha, 520, 640))
+                    };
+                    recs.truncate(2);
+                    recs.push((77, t, 3));
+                    cx.count("stores with a word (or word pair) of more than 1024 letters");
                 }
                 let n = recs.len();
                 let limit = *cx.rng.pick(&[n, n, n + 1, 10.max(n), 65536]);
